@@ -301,6 +301,9 @@ def run(ctx):
                 "and no outcome other than True/BadSignatureError; plus byte-level mutations through the three decoders decided "
                 "from SigCodec+Verify; 2-byte orders: band r in [0,n+3] x sampled s; production: algebraically constructed "
                 "classes (genuine, low-S twin, 0, n, +n, R at infinity, other key/message) with range clauses recomputed by TLC; "
+                "the public key is held in 9 equivalent object forms in rotation (derived, precomputed, own curve object with lazy/eager "
+                "table, legacy affine, pickled, without order, without cofactor) and byte-level offers travel in 7 bytes-like carriers; "
+                "production also: keys Q = (0, +-sqrt b) with algebraically constructed genuine signatures; "
                 "non-trivial = offered (key, digest, r, s) combinations")
     ctx.exhaustive = False
     ctx.assumptions += ["a genuine production-curve signature verifying under an unrelated key/message has probability < 2^-100"]
